@@ -171,6 +171,16 @@ pub fn directed_shapes(r: &mut StdRng) -> Vec<(String, Vec<Vec<u8>>)> {
             }
         }
     }
+    // the same wide node below several prefixes: equal sub-automata that must be shared
+    for &fan in &[2usize, 31, 32, 33, 64, 255, 256] {
+        for (ti, tail) in [&b""[..], &b"z"[..]].iter().enumerate() {
+            let mut ks = vec![];
+            for p in &[&b"a"[..], &b"b"[..], &b"ca"[..]] {
+                ks.extend(fanout_keys(p, fan, ti == 1, tail, if fan == 256 { 0 } else { 256 - fan as usize } as u8));
+            }
+            out.push((format!("twin-fan{}-tail{}", fan, ti), sort_dedup(ks)));
+        }
+    }
     // two levels of wide nodes
     let mut two = vec![];
     for a in 0..40u8 {
